@@ -7,7 +7,7 @@ ENGINE = "gensim"
 LEVEL = "exploration"
 EXPECTED_S_PER_RUN = 2.0
 KINDS = ["obs", "param", "obsmulti"]
-TIERS = {"quick": 400, "thorough": 24000}
+TIERS = {"quick": 400, "thorough": 10000}
 
 RULE = (
     "each run draws 1-2 loaders (DataGeneratorObservations with 1-D/2-D inputs and values and 0-2 observed parameters; "
